@@ -13,6 +13,7 @@ pub struct PanicInfo {
 
 thread_local! {
     static LAST: RefCell<Option<PanicInfo>> = const { RefCell::new(None) };
+    static DEPTH: std::cell::Cell<u32> = const { std::cell::Cell::new(0) };
 }
 
 static INSTALL: Once = Once::new();
@@ -31,6 +32,10 @@ pub fn install() {
                 .location()
                 .map(|l| format!("{}:{}", l.file(), l.line()))
                 .unwrap_or_else(|| "<unknown>".into());
+            if DEPTH.with(|d| d.get()) == 0 {
+                // not inside a monitored library call: this is a harness bug, make it visible
+                eprintln!("HARNESS PANIC (outside guard): {} at {}", message, location);
+            }
             LAST.with(|l| *l.borrow_mut() = Some(PanicInfo { message, location }));
         }));
     });
@@ -39,7 +44,10 @@ pub fn install() {
 /// Runs `f`, converting an unwinding panic into `Err(PanicInfo)`.
 pub fn guard<T>(f: impl FnOnce() -> T) -> Result<T, PanicInfo> {
     LAST.with(|l| *l.borrow_mut() = None);
-    match catch_unwind(AssertUnwindSafe(f)) {
+    DEPTH.with(|d| d.set(d.get() + 1));
+    let r = catch_unwind(AssertUnwindSafe(f));
+    DEPTH.with(|d| d.set(d.get() - 1));
+    match r {
         Ok(v) => Ok(v),
         Err(_) => Err(LAST.with(|l| l.borrow_mut().take()).unwrap_or(PanicInfo {
             message: "<panic without hook record>".into(),
